@@ -160,7 +160,7 @@ def run(ctx, ck):
     # the closed-form self term describes one segment: its length and its radius are of the same pulse
     ck.rule('R-ROLE.self-term', 'length and radius combined in one closed-form potential term belong to the same pulse of the pair')
     from ._roles import check_self_term_roles
-    ck.floor('closed-form terms combining length and radius', check_self_term_roles(ctx, ck), 2)
+    ck.floor('closed-form terms combining length and radius', check_self_term_roles(ctx, ck), 1)
     # the fill shortcuts of a grounded pulse are only valid for an exactly vertical segment
     ck.rule('R-LIT.vertical-exact', 'grounded-and-not-vertical is decided by exact zero tests of the horizontal direction components')
     from ._sym import check_vertical_exact
